@@ -148,7 +148,8 @@ Proof. induction l as [|p l IH]; intros m S; simpl; [exact S | apply IH; apply f
 Lemma fold_flip_notin : forall n l m x y, sq n m -> (forall i j, In (i, j) l -> i < n /\ j < n) ->
   ~ In (x, y) l -> get2 0 (fold_left flip l m) x y = get2 0 m x y.
 Proof.
-  induction l as [|[i j] l IH]; intros m x y S R NI; simpl; [reflexivity|].
+  induction l as [|[i j] l IH]; intros m x y S R NI; [reflexivity|].
+  change (fold_left flip ((i, j) :: l) m) with (fold_left flip l (flip m (i, j))).
   rewrite IH; [| apply flip_sq; exact S | intros; apply R; right; assumption | intro; apply NI; right; assumption].
   destruct (R i j (or_introl eq_refl)) as [Hi Hj]. rewrite (flip_get n) by assumption.
   destruct (Nat.eqb_spec x i) as [->|]; [|reflexivity]. destruct (Nat.eqb_spec y j) as [->|]; [|reflexivity].
@@ -158,7 +159,8 @@ Qed.
 Lemma fold_flip_in : forall n l m x y, sq n m -> (forall i j, In (i, j) l -> i < n /\ j < n) ->
   NoDup l -> In (x, y) l -> get2 0 (fold_left flip l m) x y = flipv (get2 0 m x y).
 Proof.
-  induction l as [|[i j] l IH]; intros m x y S R ND HI; simpl; [destruct HI|].
+  induction l as [|[i j] l IH]; intros m x y S R ND HI; [destruct HI|].
+  change (fold_left flip ((i, j) :: l) m) with (fold_left flip l (flip m (i, j))).
   inversion ND as [|? ? NI ND']; subst.
   destruct (R i j (or_introl eq_refl)) as [Hi Hj].
   destruct HI as [E|HI].
@@ -180,21 +182,22 @@ Proof.
   pose proof (b_wf _ _ _ B) as W. pose proof W as [SC [SM [Lr Lc]]].
   unfold zstep5, step5 in H.
   destruct (step5_path (S (S n)) (sM s) [sZ0 s]) as [path|] eqn:SP; [|discriminate].
-  inversion H as [Hs']; clear H.
+  injection H as Hs'. subst s'.
   destruct (sZ0 s) as [r0 c0] eqn:Z0. simpl in Hr0, Hc0, Hz0, Hns.
   set (mk := sM s) in *.
   assert (V0 : vpath mk r0 c0 [(r0, c0)]) by constructor.
   destruct (step5_path_vpath mk r0 c0 _ _ _ V0 SP) as [V T].
   assert (D : dist mk (snd (hd (0, 0) path)) 0) by (constructor; exact T).
-  pose proof (vpath_Q n mk SM r0 c0 Hz0 path V 0 D) as q.
+  pose proof (vpath_Q n mk SM r0 c0 Hz0 Hns path V 0 D) as q.
   assert (RG : forall i j, In (i, j) path -> i < n /\ j < n).
   { intros i j HI. apply (get2_range n mk i j 0 SM).
     destruct (q_kind _ _ _ _ _ q i j HI) as [[G _]|[G _]]; rewrite G; discriminate. }
   assert (RG' : forall i j, In (i, j) (rev path) -> i < n /\ j < n) by (intros i j HI; apply RG; apply in_rev; exact HI).
   set (mk' := fold_left flip (rev path) mk) in *.
+  set (s' := mkState (sC s) (erase_primes mk') (clear (sRC s)) (clear (sCC s)) (r0, c0)).
   assert (NS : forall i j, gM s' i j = 1 ->
             (In (i, j) path /\ get2 0 mk i j = 2) \/ (~ In (i, j) path /\ get2 0 mk i j = 1)).
-  { intros i j G. rewrite <- Hs' in G. unfold gM in G; simpl in G. rewrite erase_get in G.
+  { intros i j G. unfold gM, s' in G; simpl in G. rewrite erase_get in G.
     destruct (Nat.eqb_spec (get2 0 mk' i j) 2) as [|_]; [discriminate|].
     destruct (in_dec pair_eq_dec (i, j) path) as [HI|HI].
     - left. split; [exact HI|]. unfold mk' in G.
@@ -205,12 +208,12 @@ Proof.
   assert (Hrow : forall i j j', get2 0 mk i j = 1 -> get2 0 mk i j' = 1 -> j = j') by (exact (b_row _ _ _ B)).
   assert (Hcol : forall i i' j, get2 0 mk i j = 1 -> get2 0 mk i' j = 1 -> i = i') by (exact (b_col _ _ _ B)).
   assert (W' : wf n s').
-  { rewrite <- Hs'. repeat split; simpl; try apply SC.
+  { unfold s'. repeat split; simpl; try apply SC.
     - unfold erase_primes. rewrite map_length. destruct (fold_flip_sq n (rev path) mk SM) as [L _]. exact L.
     - unfold erase_primes. apply (sq_mapmap n). apply fold_flip_sq. exact SM.
     - rewrite clear_length; exact Lr.
     - rewrite clear_length; exact Lc. }
-  assert (GCs : forall i j, gC s' i j = gC s i j) by (intros; rewrite <- Hs'; reflexivity).
+  assert (GCs : forall i j, gC s' i j = gC s i j) by (intros; reflexivity).
   split; [|split].
   - constructor.
     + exact W'.
@@ -244,7 +247,7 @@ Proof.
       * exfalso. exact (K i i' I1 A1 I2 A2).
       * exfalso. exact (K i' i I2 A2 I1 A1).
       * exact (Hcol i i' j A1 A2).
-  - intros i j G. rewrite <- Hs' in G. unfold gM in G; simpl in G. rewrite erase_get in G.
-    destruct (Nat.eqb_spec (get2 0 (fold_left flip (rev path) mk) i j) 2) as [|N]; [discriminate | exact (N G)].
-  - split; intro k; rewrite <- Hs'; unfold rcov, ccov; simpl; apply nth_clear.
+  - intros i j G. unfold gM, s' in G; simpl in G. rewrite erase_get in G.
+    destruct (Nat.eqb_spec (get2 0 mk' i j) 2) as [|N]; [discriminate | exact (N G)].
+  - split; intro k; unfold rcov, ccov, s'; simpl; apply nth_clear.
 Qed.
